@@ -32,7 +32,7 @@ fn shapes_for<'a>(ctx: &'a Ctx) -> Vec<usize> {
         .filter(|&i| {
             let d = &ctx.zoo[i].desc;
             match p {
-                "C17" => d.is_portable(),
+                "C17" => d.is_portable() || ctx.zoo[i].impls_portable,
                 "C20" => d.has_default() && (ctx.zoo[i].default_probe),
                 _ => true,
             }
@@ -49,7 +49,8 @@ fn gen_case(ctx: &Ctx, shapes: &[usize], idx: u64) -> Case {
     let v = if ctx.prop == "C20" { default_value(d) } else { gen_value(d, &mut rng, budget) };
     let need = extent_of(d, &v);
     let style = rng.next();
-    let (n, nclass) = if ctx.prop == "C15" {
+    let any_buffer = ctx.prop == "C15" || ctx.prop == "C14";
+    let (n, nclass) = if any_buffer {
         match rng.below(10) {
             0 => (rng.range(0, d.min_size()), "below-min"),
             1 => (d.min_size().saturating_sub(1), "min-1"),
@@ -71,7 +72,7 @@ fn gen_case(ctx: &Ctx, shapes: &[usize], idx: u64) -> Case {
             _ => (need + rng.range(0, 200), "large"),
         }
     };
-    let off = if ctx.prop == "C15" {
+    let off = if any_buffer {
         crate::inputs::pick_offset(a, &mut rng)
     } else if ctx.prop == "C17" {
         rng.below(9) as usize
@@ -86,7 +87,7 @@ fn gen_case(ctx: &Ctx, shapes: &[usize], idx: u64) -> Case {
         off,
         place: if rng.chance(1, 2) { Place::Tail } else { Place::Island },
         garbage: rng.next(),
-        api: if ctx.prop == "C15" || ctx.prop == "C20" { rng.below(3).min(1) as u8 } else { 0 },
+        api: if any_buffer || ctx.prop == "C20" { rng.below(3).min(1) as u8 } else { 0 },
         nclass,
     }
 }
@@ -134,6 +135,13 @@ pub fn run(ctx: &Ctx, rep: &mut Report) {
         return;
     }
     let lean = ctx.lite && ctx.mode.starts_with("miri");
+    if ctx.prop == "C17" {
+        // what the Portable probe saw: generated definitions that implement Portable, and generated definitions
+        // (generic ones declared portable, instantiated with a native argument) that rightly do not
+        for vt in ctx.zoo.iter().filter(|vt| matches!(vt.desc, Desc::Struct { .. } | Desc::Enum { .. })) {
+            rep.count(if vt.impls_portable { "c17:definitions-implementing-Portable" } else { "c17:definitions-not-implementing-Portable" });
+        }
+    }
     ctx.for_cases(rep, |idx, rep| {
         let case = gen_case(ctx, &shapes, idx);
         let vt = &ctx.zoo[case.si];
@@ -161,6 +169,7 @@ pub fn run(ctx: &Ctx, rep: &mut Report) {
         let need = extent_of(d, &case.v);
         let mut rr = Rng::new(case.garbage ^ 0x99);
 
+        let before: Vec<u8> = if ctx.prop == "C14" { arena.slice().to_vec() } else { Vec::new() };
         // run
         let mut view_bad: Vec<(String, String)> = Vec::new();
         let mut got_size = 0usize;
@@ -234,6 +243,34 @@ pub fn run(ctx: &Ctx, rep: &mut Report) {
         }
         rep.key(mix(hash_str(vt.name) ^ mix(hash_str(zone)) ^ mix(hash_str(case.nclass)) ^ mix(hash_str(&format!("{:?}", case.v))).rotate_left(9) ^ mix(case.style % 6)));
 
+        if ctx.prop == "C14" {
+            // construction (also a refused one) changes only bytes that can belong to the value: nothing at all in a
+            // misaligned slice, and never the bytes behind the last whole multiple of the alignment (no value of this
+            // type mapped on this slice covers them).  Bytes outside the slice are watched by the canaries above.
+            let after = arena.slice();
+            let usable = floor_to(n, a);
+            if !aligned {
+                if let Some(i) = (0..n).find(|&i| after[i] != before[i]) {
+                    rep.violation(format!("C14|construct|misaligned-slice-modified|{}", kind_path(d)), format!("{}: emplacing into a misaligned slice ({:?}) changed byte {}", vt.name, res, i), cj());
+                }
+                rep.count("c14:construct-misaligned-checked");
+            } else {
+                if let Some(i) = (usable..n).find(|&i| after[i] != before[i]) {
+                    rep.violation(
+                        format!("C14|construct|bytes-behind-the-value-modified|{}", kind_path(d)),
+                        format!("{}: emplacing {} into {} bytes ({:?}) changed byte {} although a value of this type covers at most {} of them", vt.name, case.v.short(), n, res.as_ref().map_err(|e| kind_name(&e.kind)), i, usable),
+                        cj(),
+                    );
+                }
+                if usable < n {
+                    rep.count("c14:construct-tail-bytes-checked");
+                }
+                if res.is_err() {
+                    rep.count("c14:construct-refused-checked");
+                }
+            }
+            return;
+        }
         // C15: the right error or success
         let c15 = ctx.prop == "C15";
         match (&res, zone) {
@@ -301,7 +338,15 @@ pub fn run(ctx: &Ctx, rep: &mut Report) {
                     );
                 }
             }
-            if ctx.prop == "C17" && !lean {
+            if ctx.prop == "C17" && !d.is_portable() {
+                // implements Portable although a field is not portable (a generic definition declared portable whose
+                // impl is not conditional on its parameters): native alignment, padding and byte order behind a Portable impl
+                rep.violation(
+                    format!("C17|Portable-impl-on-non-portable-layout|{}", kind_path(d)),
+                    format!("{} implements Portable but contains non-portable fields; its alignment is {}", vt.name, a),
+                    cj(),
+                );
+            } else if ctx.prop == "C17" && !lean {
                 let mut ser = Vec::new();
                 serialize_portable(d, &case.v, &mut ser);
                 let m = got_size.min(image.len());
